@@ -97,6 +97,17 @@ def run(rep: Report, tier: str, seed: int) -> None:
                                   "ex2/a.py": "from .base import Kindx2, Shapex2\n\n\nclass Squarex2(Shapex2):\n    def sidex2(self, k: Kindx2) -> int:\n        return 1\n",
                                   "ex2/b.py": "from ex2base_alias import *  # type: ignore[import-not-found]  # noqa: F403\nfrom .base import Kindx2, Shapex2\n\n\ndef drawx2(s: Shapex2, k: Kindx2) -> Kindx2:\n    return k\n"},
                                  [("enum", "Kindx2"), ("variant", "AX2"), ("class", "Shapex2"), ("fun", "areax2"), ("fun", "helperx2"), ("class", "Squarex2"), ("fun", "sidex2"), ("fun", "drawx2")]),
+        # declarations whose 'def' / 'class' / assignment statement sits in a branch of an if / try / with statement of the
+        # module or class body (platform switches, optional dependencies); every name is defined in one branch only
+        "defined-under-condition": ({"ex3/__init__.py": "", "ex3/m.py": "import sys\n\nFLAGX3 = len(sys.argv) > 3\n\nif FLAGX3:\n    def onlyifx3(a: int) -> int:\n        return a\nelse:\n    def onlyelsex3(a: int) -> int:\n        return a\n\ntry:\n    def intryx3(a: int) -> int:\n        return a\nexcept ImportError:\n    pass\n\nif FLAGX3:\n    class Condx3:\n        def condmethx3(self) -> int:\n            return 1\n\n\nclass Hostx3:\n    if FLAGX3:\n        def condmx3(self, a: int) -> int:\n            return a\n\n        condax3: int = 1\n\n    def plainx3(self) -> int:\n        return 1\n"},
+                                    [("fun", "onlyifx3"), ("fun", "onlyelsex3"), ("fun", "intryx3"), ("class", "Condx3"), ("fun", "condmethx3"), ("class", "Hostx3"), ("fun", "condmx3"), ("attr", "condax3"), ("fun", "plainx3")]),
+        # a sibling package re-exports declarations of a private module with a two-dot relative import
+        "two-dot-relative-reexport": ({"ex5/__init__.py": "", "ex5/corex5/__init__.py": "", "ex5/corex5/_implx5.py": "class Enginex5:\n    def gox5(self) -> int:\n        return 1\n\n\ndef helperx5(a: int) -> int:\n    return a\n",
+                                       "ex5/apix5/__init__.py": "from ..corex5._implx5 import Enginex5, helperx5\n", "ex5/apix5/modx5.py": "def plainx5() -> int:\n    return 1\n"},
+                                      [("class", "Enginex5"), ("fun", "gox5"), ("fun", "helperx5"), ("fun", "plainx5")]),
+        # a name defined twice in one body (the later definition is the one Python keeps): one declaration, emitted once
+        "redefinition": ({"ex4/__init__.py": "", "ex4/m.py": "def twicex4(a: int) -> int:\n    return a\n\n\ndef twicex4(a: int, b: int) -> int:  # noqa: F811\n    return a\n\n\nclass Dupx4:\n    def onex4(self) -> int:\n        return 1\n\n\nclass Dupx4:  # noqa: F811\n    def twox4(self) -> int:\n        return 1\n\n\nclass Holderx4:\n    def mdupx4(self) -> int:\n        return 1\n\n    def mdupx4(self, a: int) -> int:  # noqa: F811\n        return a\n\n    adupx4: int = 1\n    adupx4: int = 2\n"},
+                         [("fun", "twicex4"), ("class", "Dupx4"), ("fun", "twox4"), ("class", "Holderx4"), ("fun", "mdupx4"), ("attr", "adupx4")]),
     }
 
     def build_e(us):
